@@ -192,12 +192,27 @@ Proof. unfold cnt_lt. induction (m_data M) as [|x l IH]; [reflexivity|]. cbn [fi
 
 (* one iteration: never stuck, inner loop within fuel, merges two distinct
    live clusters, invariant re-established *)
-Theorem chain_iter_step n0 s d M L i : NInv n0 s d M L -> 2 <= length L ->
+(* what one merge does to the matrix and the sizes (for the criterion invariant) *)
+Definition merge_facts (s s' : lstate T) (M M' : cmat T) (L : list nat) (a b : nat) (v : T) : Prop :=
+  wcell M a b = Some v
+  /\ exists za zb sa sb,
+      nth_error (st_sizes s) a = Some za /\ nth_error (st_sizes s) b = Some zb
+      /\ st_sizes s' = set_nth (st_sizes s) b (za + zb)
+      /\ (if uses_sizes_ab meth then sa = za /\ sb = zb else sa = 0 /\ sb = 0)
+      /\ (forall x, In x L -> x <> a -> x <> b ->
+            exists va vb sx, wcell M x a = Some va /\ wcell M x b = Some vb
+              /\ (if uses_size_x meth then vget (st_sizes s) x else Ok 0) = Ok sx
+              /\ wcell M' x b = Some (k_upd K va vb v sa sb sx))
+      /\ (forall x y, In x L -> In y L -> x <> y -> x <> a -> x <> b -> y <> a -> y <> b ->
+            wcell M' x y = wcell M x y).
+
+Theorem chain_iter_step_ext n0 s d M L i : NInv n0 s d M L -> 2 <= length L ->
   exists s' d' M' a b v sz,
     chain_iter K p meth (s, d, M) i = Ok (s', d', M')
     /\ In a L /\ In b L /\ a < b
     /\ d_steps d' = d_steps d ++ [step_new a b v sz]
-    /\ NInv n0 s' d' M' (without a L).
+    /\ NInv n0 s' d' M' (without a L)
+    /\ merge_facts s s' M M' L a b v.
 Proof.
   intros HI HL2. destruct (chain_entry HI HL2) as (a0 & b0 & rest0 & mn0 & Hentry & Hc0 & Hb0 & Hnn0 & Hst0).
   destruct HI as (HA & Hwf & HMo & HN & Hnd & Hsz & Hpos & Hobs & Hcount & _).
@@ -241,11 +256,12 @@ Proof.
   rewrite Hdist. cbn [bind].
   (* sizes *)
   destruct (Hpos a Ha) as (za & Hza & Hza0). destruct (Hpos b Hb) as (zb & Hzb & Hzb0).
-  assert (Hsab : exists sa sb, sizes_ab meth s1 a b = Ok (sa, sb) /\ (uses_sizes_ab meth = true -> 0 < sa /\ 0 < sb)).
+  assert (Hsab : exists sa sb, sizes_ab meth s1 a b = Ok (sa, sb) /\ (uses_sizes_ab meth = true -> 0 < sa /\ 0 < sb)
+                   /\ (if uses_sizes_ab meth then sa = za /\ sb = zb else sa = 0 /\ sb = 0)).
   { unfold sizes_ab, s1. cbn [st_with_chain st_sizes]. destruct (uses_sizes_ab meth).
-    - unfold vget. rewrite Hza, Hzb. cbn [bind]. exists za, zb. split; [reflexivity|]. intros _. split; assumption.
-    - exists 0, 0. split; [reflexivity|discriminate]. }
-  destruct Hsab as (sa & sb & Hsab & Hsabpos). rewrite Hsab. cbn [bind].
+    - unfold vget. rewrite Hza, Hzb. cbn [bind]. exists za, zb. split; [reflexivity|]. split; [intros _; split; assumption|split; reflexivity].
+    - exists 0, 0. split; [reflexivity|]. split; [discriminate|split; reflexivity]. }
+  destruct Hsab as (sa & sb & Hsab & Hsabpos & Hsabval). rewrite Hsab. cbn [bind].
   (* update *)
   assert (HA1 : AInv (st_active s1) L) by exact HA.
   destruct (@update3_ok s1 M L a b mn1 sa sb n0 HA1 Hwf HMo HN Hsz Ha Hb Hab) as (M' & Hupd).
@@ -263,6 +279,13 @@ Proof.
   unfold d_push, d_len, assert_. destruct (Nat.ltb_spec (length (d_steps d)) (d_obs d - 1)); [|lia]. cbn [bind].
   eexists _, _, M', a, b, mn1, (za + zb). split; [reflexivity|].
   split; [exact Ha|]. split; [exact Hb|]. split; [exact Hab|]. split; [reflexivity|].
+  assert (Hsame : forall x y, In x L -> In y L -> x <> y -> x <> a -> x <> b -> y <> a -> y <> b -> wcell M' x y = wcell M x y).
+  { intros x y Hx Hy Hxy Hxa Hxb Hya Hyb. unfold wcell. apply Hout.
+    + lia.
+    + destruct (Nat.max_spec x y) as [[_ ->]|[_ ->]]; [exact (HB y Hy)|exact (HB x Hx)].
+    + intros z Hz Hza' Hzb' E. inversion E as [[E1 E2]]. lia. }
+  split; [|split; [exact Hcab|exists za, zb, sa, sb; split; [exact Hza|]; split; [exact Hzb|]; split; [reflexivity|];
+                   split; [exact Hsabval|]; split; [exact Hin|exact Hsame]]].
   (* the invariant *)
   unfold NInv. cbn [st_with_active st_with_sizes st_with_chain st_active st_sizes st_chain d_steps d_obs].
   split; [exact HA'|]. split; [exact Hwf'|]. split; [lia|]. split; [lia|].
@@ -281,18 +304,26 @@ Proof.
     assert (c <> a1) by (intros ->; apply Hn1; right; exact Hc').
     assert (c <> b1) by (intros ->; apply Hn2; exact Hc').
     unfold a, b. lia. }
-  apply (@cinv_transfer M M' L a b Ha Hb); [| |exact Hrest_ne|exact (cinv_tail (cinv_tail Hc1))].
-  - intros x y Hx Hy Hxy Hxa Hxb Hya Hyb. unfold wcell. apply Hout.
-    + lia.
-    + destruct (Nat.max_spec x y) as [[_ ->]|[_ ->]]; [exact (HB y Hy)|exact (HB x Hx)].
-    + intros z Hz Hza' Hzb' E. inversion E as [[E1 E2]]. lia.
-  - intros x Hx Hxa Hxb. destruct (Hin x Hx Hxa Hxb) as (va & vb & sx & Ca & Cb & Esx & Cn).
-    exists va, vb, (k_upd K va vb mn1 sa sb sx). split; [exact Ca|]. split; [exact Cb|]. split; [exact Cn|].
-    apply reducible.
-    + split; [exact Hsabpos|]. intros Hux. rewrite Hux in Esx. cbn [s1 st_with_chain st_sizes] in Esx.
-      destruct (Hpos x Hx) as (zx & Hzx & Hzx0). unfold vget in Esx. rewrite Hzx in Esx. inversion Esx. lia.
-    + exact (Hfar x va Hx Hxa Hxb (or_introl Ca)).
-    + exact (Hfar x vb Hx Hxa Hxb (or_intror Cb)).
+  apply (@cinv_transfer M M' L a b Ha Hb); [exact Hsame| |exact Hrest_ne|exact (cinv_tail (cinv_tail Hc1))].
+  intros x Hx Hxa Hxb.
+  destruct (Hin x Hx Hxa Hxb) as (va & vb & sx & Ca & Cb & Esx & Cn).
+  exists va, vb, (k_upd K va vb mn1 sa sb sx). split; [exact Ca|]. split; [exact Cb|]. split; [exact Cn|].
+  apply reducible.
+  - split; [exact Hsabpos|]. intros Hux. rewrite Hux in Esx. cbn [s1 st_with_chain st_sizes] in Esx.
+    destruct (Hpos x Hx) as (zx & Hzx & Hzx0). unfold vget in Esx. rewrite Hzx in Esx. inversion Esx. lia.
+  - exact (Hfar x va Hx Hxa Hxb (or_introl Ca)).
+  - exact (Hfar x vb Hx Hxa Hxb (or_intror Cb)).
+Qed.
+
+Corollary chain_iter_step n0 s d M L i : NInv n0 s d M L -> 2 <= length L ->
+  exists s' d' M' a b v sz,
+    chain_iter K p meth (s, d, M) i = Ok (s', d', M')
+    /\ In a L /\ In b L /\ a < b
+    /\ d_steps d' = d_steps d ++ [step_new a b v sz]
+    /\ NInv n0 s' d' M' (without a L).
+Proof.
+  intros HI HL. destruct (chain_iter_step_ext i HI HL) as (s' & d' & M' & a & b & v & sz & H1 & H2 & H3 & H4 & H5 & H6 & _).
+  exists s', d', M', a, b, v, sz. repeat (split; [assumption|]). assumption.
 Qed.
 
 (* forest invariant of the raw steps under one merge of a live pair *)
